@@ -6,6 +6,7 @@
 import CM.Proofs.Correct
 import CM.Proofs.Decode
 import CM.Proofs.CorrectC
+import CM.Proofs.DecodeG
 namespace CM
 
 /-- `GraphOK`, decided node by node -/
@@ -135,5 +136,52 @@ theorem okCB_sound (g : Graph) (h : g.okCB = true) : GraphOKC g := by
     · exact .inl h1
     · cases e <;> simp at h2
       exact .inr ⟨_, rfl⟩
+
+
+/-! ### `PlainG`, decided -/
+
+def Graph.plainGB (g : Graph) (d : DenCfg) (x : Val) : Bool :=
+  g.plainB d &&
+  (g.usedInputs.all fun n => match d.env (g.node n).name with | some v => v == x | none => false) &&
+  (List.range g.nodes.length).all fun n =>
+    (match (g.node n).edge with
+     | none => true
+     | some e => e.noPlaceholder &&
+        (match e with
+         | .byValue i => i.plain &&
+            (match i with
+             | .function f _ _ => (d.constFns.find? (·.1 == f)).isNone && !d.impureFns.contains f
+             | _ => true)
+         | _ => true))
+
+theorem plainGB_sound (g : Graph) (d : DenCfg) (x : Val) (h : g.plainGB d x = true) : PlainG g d x := by
+  simp only [Graph.plainGB, Bool.and_eq_true, List.all_eq_true, List.mem_range] at h
+  obtain ⟨⟨hp, hb⟩, h⟩ := h
+  have lt : ∀ n nd, g.nodes[n]? = some nd → n < g.nodes.length := by
+    intro n nd hn
+    exact (List.getElem?_eq_some_iff.mp hn).1
+  refine { toPlain := plainB_sound g d hp, bound := ?_, consts := ?_, innerPlain := ?_, innerPure := ?_ }
+  · intro n hu
+    have := hb n (by simpa using hu)
+    cases hv : d.env (g.node n).name with
+    | none => simp [hv] at this
+    | some v =>
+      simp only [hv] at this
+      rw [Val.eq_of_beq v x this]
+  · intro n nd e hn he
+    have := h n (lt n nd hn)
+    rw [node_eq_of_getElem? g n nd hn, he] at this
+    simp only [Bool.and_eq_true] at this
+    exact this.1
+  · intro n nd i hn he
+    have := h n (lt n nd hn)
+    rw [node_eq_of_getElem? g n nd hn, he] at this
+    simp only [Bool.and_eq_true] at this
+    exact this.2.1
+  · intro n nd i hn he f kwn sil hi pos kwv
+    have := h n (lt n nd hn)
+    rw [node_eq_of_getElem? g n nd hn, he, hi] at this
+    simp only [Bool.and_eq_true, Bool.not_eq_true'] at this
+    exact call_pure d n f pos kwn kwv this.2.2.1 this.2.2.2
 
 end CM
